@@ -1,0 +1,15 @@
+//go:build verif
+
+package clientinterceptors
+
+// Contracts for the deductive verifier in /verif (govc). Comment-only file: adds no code.
+
+// The client-side breaker is per target+method and judges outcomes by their gRPC code (codes.Acceptable), so
+// benign codes never move it towards open; the call is invoked exactly once with the caller's arguments.
+//@ func BreakerInterceptor
+//@   prop C01
+//@   opaque DoWithAcceptable, Join, Target
+//@   ensures [per-target-method-breaker-with-grpc-code-classifier] calls(breaker.DoWithAcceptable) == 1 && arg(breaker.DoWithAcceptable, 0) == ret(path.Join) && arg(breaker.DoWithAcceptable, 2) == codes.Acceptable && result == ret(breaker.DoWithAcceptable) && len(arg(path.Join, 0)) == 2 && arg(path.Join, 0)[1] == method
+//@ func BreakerInterceptor$1
+//@   prop C01
+//@   ensures [invoked-once-same-arguments] calls(invoker) == 1 && arg(invoker, 0) == ctx && arg(invoker, 1) == method && arg(invoker, 2) == req && arg(invoker, 3) == reply && arg(invoker, 4) == conn && arg(invoker, 5) == opts && result == ret(invoker)
